@@ -761,7 +761,9 @@ def mpc_acosh(z, prec, rnd=round_fast):
     # acosh(z) = -I * acos(z)   for Im(acos(z)) <= 0
     #            +I * acos(z)   otherwise
     a, b = mpc_acos(z, prec, rnd)
-    if b[0] or b == fzero:
+    # If the imaginary part of acos(z) cancelled to zero, its sign is
+    # still known: it is opposite to the sign of Im(z)
+    if b[0] or (b == fzero and not z[1][0]):
         return mpf_neg(b), a
     else:
         return b, mpf_neg(a)
